@@ -389,6 +389,11 @@ impl Report {
 pub fn finish(mut rep: Report, ctx: &Ctx, known: &KnownFindings) -> i32 {
     let wall = rep.start.elapsed().as_secs_f64();
     let id = rep.property;
+    // one report per distinct signature (every worker tends to find the same defect)
+    {
+        let mut seen = HashSet::new();
+        rep.founds.retain(|f| seen.insert(f.failure.sig.clone()));
+    }
     let dir = &ctx.verif_dir;
     let _ = std::fs::create_dir_all(format!("{}/evidence", dir));
     let _ = std::fs::create_dir_all(format!("{}/replays/{}", dir, id));
